@@ -103,7 +103,7 @@ HAlgs      == Algs \cup {"none", "absent", "lower", "num", "null", "arr"}
 Typs       == {"JWT", "absent", "jwt", "other", "num"}
 Ctys       == {"absent", "JWT", "other"}
 HShapes    == {"issue", "algfirst", "extra", "ws"}
-ClaimKinds == {"absent", "past", "future", "pastf", "futuref", "neg", "big", "str", "junk"}
+ClaimKinds == {"absent", "past", "future", "pastf", "futuref", "neg", "big", "str", "null", "junk"}
 Pays       == {"obj", "nested", "arr", "str", "num", "notjson", "empty"}
 PosMuts    == {"flip1", "flip2", "flip3", "del1", "del2", "del3", "ins1", "ins2", "ins3"}   \* at EVERY position of part p
 Muts       == {"none"} \cup PosMuts \cup {"trunc", "extra", "siglen", "sigstd", "sigpad", "sigbits", "parts", "garbage"}
@@ -129,10 +129,13 @@ ViaClass(cfg, tok) == IF tok.via = "std" THEN "ok"
                       ELSE IF cfg.getter = "default" /\ tok.via \in {"lcscheme", "ucscheme", "twospace"} THEN "lenient"
                       ELSE "bad"
 PayloadIsJSON(tok) == tok.pay \notin {"notjson", "empty"}
-\* can the handler's payload type hold the signed payload?  ("typed": struct {sub, n, exp?, nbf?, iat?: u64})
+\* can the handler's payload type hold the signed payload?  "value": any JSON; "typed": a struct {sub, n and
+\* optional exp/nbf/iat: u64} - unknown fields are ignored by serde, `null` is an absent option
 Decodable(cfg, tok) == /\ PayloadIsJSON(tok)
                        /\ \/ cfg.ptype = "value"
-                          \/ tok.pay = "obj" /\ \A c \in {tok.exp, tok.nbf, tok.iat} : c \in {"absent", "past", "future"}
+                          \/ HasClaims(tok) /\ \A c \in {tok.exp, tok.nbf, tok.iat} : c \in {"absent", "past", "future", "null"}
+\* could `issue` of this configuration have written the payload?  (a struct never writes fields it does not have)
+IssuablePayload(cfg, tok) == cfg.ptype = "value" \/ tok.pay = "obj"
 \* header exactly as `issue` writes it for this configuration
 IssuedHeader(cfg, tok) == tok.hshape = "issue" /\ tok.typ = "JWT" /\ tok.cty = "absent" /\ tok.halg = cfg.alg
 
@@ -151,7 +154,7 @@ Refusal(cfg, tok) ==
 \* facts on which the text is silent or ambiguous: a correctly MACed token that `issue` would not have written
 \* byte for byte (other header layout, typ/cty variations), lenient spellings, malformed claim values
 Unspecified(cfg, tok) == \/ ViaClass(cfg, tok) = "lenient" \/ AlgClass(cfg, tok) = "lenient"
-                         \/ "unspecified" \in ClaimVerdicts(tok) \/ ~IssuedHeader(cfg, tok)
+                         \/ "unspecified" \in ClaimVerdicts(tok) \/ ~IssuedHeader(cfg, tok) \/ ~IssuablePayload(cfg, tok)
 
 \* admit  - an issued, untouched, currently valid token: the handler runs and sees exactly the signed payload
 \* refuse - the handler does not run and the response is an error response (which status: free)
